@@ -1747,10 +1747,12 @@ func ruleLegacySelect(c *Ctx) {
 				// are not in view is not re-derived here.
 				local := false
 				for _, g := range []*ssa.Function{fn} {
-					for _, in3 := range instrsOf(g) {
-						if bo, ok := in3.(*ssa.BinOp); ok {
-							if _, _, isTest := versionTest(&ssa.If{Cond: bo}); isTest {
-								local = true
+					for _, gb := range g.Blocks { // also a test that a constant condition has disabled
+						for _, in3 := range gb.Instrs {
+							if bo, ok := in3.(*ssa.BinOp); ok {
+								if _, _, isTest := versionTest(&ssa.If{Cond: bo}); isTest {
+									local = true
+								}
 							}
 						}
 					}
@@ -1767,6 +1769,29 @@ func ruleLegacySelect(c *Ctx) {
 	}
 	if nTests == 0 {
 		c.viol("server", "a protocol version is compared as `version < 1.2.1`", "-", "no protocol version test found")
+	}
+	// the other half: where the legacy twin of an encoder exists, the current one is used only for clients at or
+	// above 1.2.1 — on the other edge of the same test
+	if cur, leg := p.fnNoRole("(*server.Subscription).populateResources"), p.fnNoRole("(*server.Subscription).populateResourcesLegacy"); cur != nil && leg != nil && cur != leg {
+		notLegacy := func(i *ssa.If) (bool, bool) {
+			if ld, proper, isTest := versionTest(i); isTest && proper {
+				return !ld, true
+			}
+			return false, false
+		}
+		for _, fn := range p.Repo {
+			if !inScopePkgs(fn, "server") || TopLevel(fn) == cur || TopLevel(fn) == leg {
+				continue
+			}
+			for _, call := range callsIn(fn) {
+				if call.Common().StaticCallee() != cur {
+					continue
+				}
+				c.inst(1)
+				c.check(p.guardedBy(call, notLegacy) != nil, fnName(fn), "the current encoders are used exactly for clients at or above 1.2.1", p.InstrPos(call), "dominated by the version >= 1.2.1 edge",
+					"the current resource encoding is placed on a path that has not established that the client's protocol version is at least 1.2.1: clients that negotiated 1.2.0 are sent soft references and data values in a form they cannot read")
+			}
+		}
 	}
 	// rescache: the legacy marshalers convert exactly for soft references and data values
 	kSoftRef := p.ConstInt("codec.ValueTypeSoftReference", -1)
